@@ -1,4 +1,5 @@
 import SockModel.Model.ToDosLemmas
+import SockModel.Spec.C06
 /-!
 # C06  ToDo scheduling: never early, in due order, exactly once, cancellable, shiftable
 
@@ -184,10 +185,29 @@ theorem prompt (clamp : Bool) (fuel : Nat) (t : Int) (s : St) (front : Entry) (r
   rw [hms]
   exact List.mem_cons_of_mem _ hst
 
+/-- **the whole property, as the check evaluates it on the implementation, holds on the model**: the
+reference scheduler of `Spec/C06.lean` - a bag of (task, due time, scheduling order) maintained from
+the operations alone, which rejects an invocation of a task that is not scheduled (twice, after
+Cancel, after the ToDo object is gone), an invocation before the due time, and an invocation that
+overtakes a task due earlier or equally due but scheduled earlier - accepts every invocation the
+model makes, in every history of any length with arbitrary task bodies (re-scheduling, cancelling,
+creating and dropping ToDos from inside tasks) and arbitrary clocks.  `./check C06` runs the very
+same functions (`RefSched.SpSt.ran`, `.user`) on the transcript of the real library. -/
+theorem spec_holds_on_model (clamp : Bool) (fuel : Nat) (ops : List Op) :
+    ∃ sp, RefSched.replay clamp fuel {} {} ops = .ok sp :=
+  RefSched.model_accepted clamp fuel ops
+
 /-! ### non-vacuity -/
 
 example :
     (run true 10 {} [.new 1 1000 [], .new 2 1000 [.shift 2 5000], .clock 1000, .step 0, .step 0]).todos
       = [⟨2, 5000, 2⟩] := by decide
+
+example : (RefSched.replay true 10 {} {}
+    [.new 1 1000 [], .new 2 1000 [.shift 2 5000], .clock 1000, .step 0, .step 0]).toOption.map (·.pend)
+      = some [⟨2, 5000, 2⟩] := by decide
+
+/-- the reference scheduler is not trivially accepting: a tie invoked in the wrong order is rejected -/
+example : (((({} : RefSched.SpSt).user (.new 1 1000 [])).user (.new 2 1000 [])).ran 2 1000).toOption.isNone := by decide
 
 end SockModel.ToDos
